@@ -696,3 +696,25 @@ Example ex_exit_absorbs :
   snd (step s2 (AExit 1 1 false)) = RRet 1 /\
   s_caught (scopes (fst (step s2 (AExit 1 1 false))) 1) = true.
 Proof. vm_compute. repeat split; reflexivity. Qed.
+
+(* a group holding the scope's own cancellation and an error: the error is re-raised without the cancellation,
+   cancelled_caught is set *)
+Example ex_exit_group_rest :
+  let s1 := final step init (ex_ops ++ [ACancel 2 1;
+              ARun (HWake 1 (match k_waiter (tasks ex_state 1) with Some f => f | None => 0 end));
+              AExit 1 2 false; AWrap 1 7]) in
+  k_held (tasks s1 1) = Some (EGroup [ECancel 2; EErr 7]) /\
+  exit_guards (begin_act s1 1) 1 1 = true /\
+  snd (step s1 (AExit 1 1 false)) = RExc (EGroup [EErr 7]) /\
+  s_caught (scopes (fst (step s1 (AExit 1 1 false))) 1) = true.
+Proof. vm_compute. repeat split; reflexivity. Qed.
+
+(* an ordinary exception passes through a cancelled scope untouched and does not set cancelled_caught *)
+Example ex_exit_non_cancel_passes :
+  let s1 := final step init [ANewRoot; ANewScope 1 None false; AEnter 1 1; ACancel 1 1; AHold 1 3] in
+  s_cancelled (scopes s1 1) = true /\ exit_guards (begin_act s1 1) 1 1 = true /\
+  no_anyio_cancel (k_held (tasks s1 1)) /\
+  snd (step s1 (AExit 1 1 false)) = RRet 0 /\
+  k_held (tasks (fst (step s1 (AExit 1 1 false))) 1) = Some (EErr 3) /\
+  s_caught (scopes (fst (step s1 (AExit 1 1 false))) 1) = false.
+Proof. vm_compute. repeat split; reflexivity. Qed.
